@@ -15,7 +15,7 @@ func init() {
 		Explanation: "Decides structural necessary conditions of C13: (R-C13-1) install => flush: every post-publication change of the active set (install, replacement, removal) is followed, before the lock is released, by a call that writes the cache; the poller's shutdown branch flushes before returning; in NewStore the flush is performed whenever a declared name had to be stubbed (flag set in the same block as the stub) and initialisation succeeded; " +
 			"(R-C13-2) one complete document: the bytes handed to Cache.Write are exactly json.Marshal of the live map Store.active.m, in one call; (R-C13-3) FileCache.Write is a single atomicfile.WriteFile(path, data, owner-only constant mode) and the package creates no other file except the cache directory (0700); " +
 			"(R-C13-4) the cache document's wire signature (computed from go/types) equals the documented one, and the file-backed client's reader type agrees with it on the \"secret\" object (Value base64, Version number); NewFileClient skips only entries with empty name, nil secret, version <= 0 or empty value and prefers TextValue only when non-empty; " +
-			"(R-C13-5) a bad cache never fails the start: no error return of NewStore depends on the cache read, its decoding or its validity, and on the decode-error and invalid edges the map is cleared before anything else uses it; (R-C13-6) the validity gate rejects an empty key, a nil entry and a nil Secret for every entry -- exactly the pointer levels later code dereferences unchecked.",
+			"(R-C13-5) a bad cache never fails the start: no error return of NewStore depends on the cache read, its decoding or its validity, and on the decode-error and invalid edges the map is cleared before anything else uses it; (R-C13-7) the decoded map is nil-tested or re-created before anything is assigned into it (the document `null` decodes into a nil map); (R-C13-6) the validity gate rejects an empty key, a nil entry and a nil Secret for every entry -- exactly the pointer levels later code dereferences unchecked.",
 		NotDecided:  "What encoding/json does with arbitrary byte strings (no panic: trusted); crash behaviour of the file write (C04's R-C04-2 covers the routine).",
 		Trusted:     append([]string{"encoding/json never panics on malformed input and leaves a partially decoded value", "atomicfile.WriteFile is atomic (checked in C04)"}, commonTrusted...),
 		Assumptions: []string{},
@@ -144,6 +144,82 @@ func runC13(c *eng.Ctx, tier string) {
 	c13Wire(c)
 	c13BadCache(c)
 	c13Validity(c)
+	c13NilMap(c)
+}
+
+// R-C13-7: json.Unmarshal into the active map can leave it nil (the JSON
+// document `null` decodes without error into a nil map).  Before anything
+// assigns into the map, a nil test of the field or an unconditional
+// re-creation must intervene; otherwise NewStore panics on a cache holding
+// `null` ("malformed cache contents never cause a panic").
+func c13NilMap(c *eng.Ctx) {
+	p := c.P
+	g := p.CallGraph()
+	for _, f := range p.PkgFuncs(setecPkg) {
+		eng.Instrs(f, func(in ssa.Instruction) {
+			call, ok := in.(*ssa.Call)
+			if !ok || !eng.CalleeIs(&call.Call, "encoding/json", "Unmarshal") {
+				return
+			}
+			t := call.Call.Args[1]
+			if mi, isMI := t.(*ssa.MakeInterface); isMI {
+				t = mi.X
+			}
+			n, _, isAct := activeFieldAddr(t)
+			if !isAct || n != "m" {
+				return
+			}
+			isGuard := func(x ssa.Instruction) bool {
+				if ifi, ok := x.(*ssa.If); ok {
+					if v, _, isN := eng.CondOf(ifi.Cond, true).NilCheck(); isN {
+						if nm, isA := activeMapOf(v); isA && nm == "m" {
+							return true
+						}
+					}
+				}
+				if st, ok := x.(*ssa.Store); ok {
+					if nm, _, isA := activeFieldAddr(st.Addr); isA && nm == "m" {
+						if _, isMk := eng.Origin(st.Val).(*ssa.MakeMap); isMk {
+							return true
+						}
+					}
+				}
+				return false
+			}
+			var search func(fn *ssa.Function, start ssa.Instruction, depth int) (ssa.Instruction, []*ssa.BasicBlock)
+			search = func(fn *ssa.Function, start ssa.Instruction, depth int) (ssa.Instruction, []*ssa.BasicBlock) {
+				writes := map[ssa.Instruction]bool{}
+				for _, m := range eng.MapOps(fn) {
+					if nm, isA := activeMapOf(m.Map); isA && nm == "m" && m.Kind == "update" {
+						writes[m.In] = true
+					}
+				}
+				hit, path := eng.Search(fn, start, nil, isGuard, func(x ssa.Instruction) bool { return writes[x] || eng.IsReturn(x) })
+				if hit == nil {
+					return nil, nil
+				}
+				if _, isRet := hit.(*ssa.Return); isRet {
+					if depth > 2 {
+						return nil, nil
+					}
+					for _, e := range g.CallersOf(fn) {
+						if h, pth := search(e.Caller, e.Site, depth+1); h != nil {
+							return h, pth
+						}
+					}
+					return nil, nil
+				}
+				return hit, path
+			}
+			hit, path := search(f, call, 0)
+			c.Check(hit == nil, "R-C13-7", f, in.Pos(), "decode of the cache into the active map", "a nil test (or re-creation) of the map separates the decode from the first assignment into it: the JSON document null decodes without error into a nil map", func() string {
+				if hit == nil {
+					return ""
+				}
+				return "assignment " + eng.InstrStr(hit) + " at " + p.Pos(hit.Pos()) + " is reachable with a nil map (panic: assignment to entry in nil map): " + p.PathStr(path)
+			}())
+		})
+	}
 }
 
 func c13NewStoreFlush(c *eng.Ctx, isFlush func(ssa.Instruction) bool) {
@@ -254,6 +330,11 @@ func c13Document(c *eng.Ctx) {
 			// the cache is the Store's own
 			fr, _, isF := eng.LoadedField(call.Call.Value)
 			c.Check(isF && fr.Is(setecPkg, "Store", "cache"), "R-C13-2", f, in.Pos(), "cache written by "+eng.FName(f), "the Store's configured cache", "")
+			// written while the lock that protected the encoding is still held
+			l := moduleLocks(c)
+			hs := l.HeldBefore(in)
+			c.Check(l.Holds(hs, keyStore), "R-C13-2", f, in.Pos(), eng.CallStr(&call.Call)+" [lock]", "encode and write happen in one critical section (an older document cannot overwrite a newer one)", "held: "+l.StateStr(hs))
+			flushAlwaysWrites(c, "R-C13-2", f, call)
 		})
 	}
 	if n != 1 {
@@ -403,31 +484,50 @@ func c13BadCache(c *eng.Ctx) {
 	if ns == nil {
 		return
 	}
-	var loadCall, unm, valid *ssa.Call
+	g := p.CallGraph()
+	// the decode of the cache: json.Unmarshal into &s.active.m, wherever it lives
+	var unm *ssa.Call
+	var unmFn *ssa.Function
+	for _, f := range p.PkgFuncs(setecPkg) {
+		eng.Instrs(f, func(in ssa.Instruction) {
+			call, ok := in.(*ssa.Call)
+			if !ok || !eng.CalleeIs(&call.Call, "encoding/json", "Unmarshal") {
+				return
+			}
+			t := call.Call.Args[1]
+			if mi, isMI := t.(*ssa.MakeInterface); isMI {
+				t = mi.X
+			}
+			if n, _, isAct := activeFieldAddr(t); isAct && n == "m" {
+				unm, unmFn = call, f
+			}
+		})
+	}
+	if unm == nil {
+		c.Undecided("R-C13-5", ns, ns.Pos(), "decode of the cache into the active set", "not found")
+		return
+	}
+	// values that carry the cache's fate into NewStore
+	cacheVals := map[ssa.Value]bool{}
 	eng.Instrs(ns, func(in ssa.Instruction) {
 		call, ok := in.(*ssa.Call)
 		if !ok {
 			return
 		}
-		if cal := eng.Callee(&call.Call); cal != nil {
-			if reachesCacheRead(p, cal) {
-				loadCall = call
-			}
-			if cal.Name() == "isActiveSetValid" {
-				valid = call
-			}
+		cal := eng.Callee(&call.Call)
+		if cal == nil {
+			return
 		}
-		if eng.CalleeIs(&call.Call, "encoding/json", "Unmarshal") {
-			unm = call
+		if reachesCacheRead(p, cal) || cal == unmFn || cal.Name() == "isActiveSetValid" || eng.CalleeIs(&call.Call, "encoding/json", "Unmarshal") {
+			cacheVals[call] = true
 		}
 	})
-	if loadCall == nil || unm == nil {
-		c.Undecided("R-C13-5", ns, ns.Pos(), "cache load / decode in NewStore", "not found")
-		return
-	}
 	isCacheVal := func(v ssa.Value) bool {
+		if v == nil {
+			return false
+		}
 		call, _ := eng.TupleCall(v)
-		return call != nil && (call == loadCall || call == unm || (valid != nil && call == valid))
+		return call != nil && cacheVals[call]
 	}
 	// no error return depends on the cache
 	for _, r := range eng.Returns(ns) {
@@ -440,66 +540,116 @@ func c13BadCache(c *eng.Ctx) {
 			bad = "returns the cache error itself"
 		}
 		for _, cond := range eng.FactsAt(r) {
-			if isCacheVal(cond.X) || (cond.Y != nil && isCacheVal(cond.Y)) {
+			if isCacheVal(cond.X) || isCacheVal(cond.Y) {
 				bad = "edge-dominated by " + cond.String()
 			}
 		}
 		c.Check(bad == "", "R-C13-5", ns, r.Pos(), "error return "+eng.InstrStr(r), "no failure of NewStore depends on the cache read, its decoding or its validity (a bad cache is ignored as a whole)", bad)
 	}
-	// clear on the decode-error and invalid edges before the map is used again
 	isClear := func(x ssa.Instruction) bool {
 		if args, ok := eng.BuiltinCall(x, "clear"); ok {
 			if n, isAct := activeMapOf(args[0]); isAct && n == "m" {
 				return true
 			}
 		}
-		// replacing the map wholesale is as good
 		if st, ok := x.(*ssa.Store); ok {
 			if n, _, isAct := activeFieldAddr(st.Addr); isAct && n == "m" {
-				return true
+				return true // the map is replaced wholesale
 			}
 		}
 		return false
 	}
-	usesMap := func(x ssa.Instruction) bool {
-		if isClear(x) {
+	usesMapIn := func(f *ssa.Function) func(ssa.Instruction) bool {
+		ops := map[ssa.Instruction]bool{}
+		for _, m := range eng.MapOps(f) {
+			if n, isAct := activeMapOf(m.Map); isAct && n == "m" && m.Kind != "clear" {
+				ops[m.In] = true
+			}
+		}
+		return func(x ssa.Instruction) bool {
+			if isClear(x) {
+				return false
+			}
+			if ops[x] {
+				return true
+			}
+			if call, ok := x.(*ssa.Call); ok {
+				if cal := eng.Callee(&call.Call); cal != nil && cal != unmFn && cal.Parent() == nil {
+					for r := range g.Reach(cal, nil) {
+						for _, a := range storeAccesses1(r) {
+							if a.What == "active.m" {
+								return true
+							}
+						}
+					}
+				}
+			}
 			return false
 		}
-		for _, m := range eng.MapOps(ns) {
-			if m.In == x {
-				if n, isAct := activeMapOf(m.Map); isAct && n == "m" {
-					return true
-				}
-			}
-		}
-		if call, ok := x.(*ssa.Call); ok {
-			if cal := eng.Callee(&call.Call); cal != nil && p.CallGraph() != nil {
-				nm := cal.Name()
-				if nm == "initializeActive" || nm == "flushCacheLocked" {
-					return true
-				}
-			}
-		}
-		return eng.IsReturn(x)
 	}
-	hit, path := eng.Search(ns, unm, eng.AssumeErr(unm, false), isClear, usesMap)
-	c.Check(hit == nil, "R-C13-5", ns, unm.Pos(), "decode-error edge of the cache", "the (possibly partially decoded) map is cleared before it is used", func() string {
+	// rejected(edge): from `start` under filter, the map is cleared before it is used;
+	// if the function returns first, the obligation passes to its call sites.
+	var rejected func(f *ssa.Function, start ssa.Instruction, filter eng.EdgeFilter, depth int) (ssa.Instruction, []*ssa.BasicBlock)
+	rejected = func(f *ssa.Function, start ssa.Instruction, filter eng.EdgeFilter, depth int) (ssa.Instruction, []*ssa.BasicBlock) {
+		uses := usesMapIn(f)
+		hit, path := eng.Search(f, start, filter, isClear, func(x ssa.Instruction) bool { return uses(x) || eng.IsReturn(x) })
+		if hit == nil {
+			return nil, nil
+		}
+		if _, isRet := hit.(*ssa.Return); !isRet || f == ns || depth > 2 {
+			return hit, path
+		}
+		// returned with the rejected contents still in place: every caller must clear before use
+		for _, e := range g.CallersOf(f) {
+			if h2, p2 := rejected(e.Caller, e.Site, nil, depth+1); h2 != nil {
+				return h2, p2
+			}
+		}
+		return nil, nil
+	}
+	hit, path := rejected(unmFn, unm, eng.AssumeErr(unm, false), 0)
+	c.Check(hit == nil, "R-C13-5", unmFn, unm.Pos(), "decode-error edge of the cache", "the (possibly partially decoded) map is cleared before anything uses it", func() string {
 		if hit == nil {
 			return ""
 		}
-		return eng.InstrStr(hit) + " reached with the partial decode in place: " + p.PathStr(path)
+		return eng.InstrStr(hit) + " at " + p.Pos(hit.Pos()) + " reached with the partial decode in place: " + p.PathStr(path)
 	}())
-	if valid != nil {
-		hit, path := eng.Search(ns, valid, eng.AssumeBool(valid, false), isClear, usesMap)
-		c.Check(hit == nil, "R-C13-5", ns, valid.Pos(), "invalid-cache edge", "an invalid cache is discarded as a whole (map cleared) before it is used", func() string {
-			if hit == nil {
-				return ""
+	// validity check
+	var valid *ssa.Call
+	var validFn *ssa.Function
+	for _, f := range []*ssa.Function{ns, unmFn} {
+		eng.Instrs(f, func(in ssa.Instruction) {
+			if call, ok := in.(*ssa.Call); ok {
+				if cal := eng.Callee(&call.Call); cal != nil && cal.Name() == "isActiveSetValid" {
+					valid, validFn = call, f
+				}
 			}
-			return eng.InstrStr(hit) + " reached with the invalid entries in place: " + p.PathStr(path)
-		}())
-	} else {
-		c.Bad("R-C13-5", ns, unm.Pos(), "validity check of the decoded cache", "the decoded cache is validated before use", "no validity check is called")
+		})
 	}
+	if valid == nil {
+		c.Bad("R-C13-5", unmFn, unm.Pos(), "validity check of the decoded cache", "the decoded cache is validated before use", "no validity check is called")
+		return
+	}
+	hit, path = rejected(validFn, valid, eng.AssumeBool(valid, false), 0)
+	c.Check(hit == nil, "R-C13-5", validFn, valid.Pos(), "invalid-cache edge", "an invalid cache is discarded as a whole (map cleared) before it is used", func() string {
+		if hit == nil {
+			return ""
+		}
+		return eng.InstrStr(hit) + " reached with the invalid entries in place: " + p.PathStr(path)
+	}())
+	// the validity check covers every successfully decoded cache
+	hit, path = eng.Search(unmFn, unm, eng.AssumeErr(unm, true), func(x ssa.Instruction) bool { return x == ssa.Instruction(valid) }, func(x ssa.Instruction) bool {
+		if validFn != unmFn || x == ssa.Instruction(valid) {
+			return false
+		}
+		return usesMapIn(unmFn)(x) || eng.IsReturn(x)
+	})
+	c.Check(hit == nil, "R-C13-5", unmFn, unm.Pos(), "validation after a successful decode", "every successfully decoded cache is validated before it is used", func() string {
+		if hit == nil {
+			return ""
+		}
+		return eng.InstrStr(hit) + " reached without validation: " + p.PathStr(path)
+	}())
 }
 
 func reachesCacheRead(p *eng.Prog, f *ssa.Function) bool {
@@ -612,4 +762,39 @@ func c13Validity(c *eng.Ctx) {
 			c.Check(!loop.Body.Dominates(r.Block()), "R-C13-6", f, r.Pos(), eng.InstrStr(r), "the set is valid only after every entry was examined", "true returned from inside the loop")
 		}
 	}
+}
+
+// flushAlwaysWrites: with a cache configured, every success return of the
+// flush routine f has passed the Cache.Write call `call`.
+func flushAlwaysWrites(c *eng.Ctx, rule string, f *ssa.Function, call *ssa.Call) {
+	p := c.P
+	in := ssa.Instruction(call)
+			assumeCache := func(b *ssa.BasicBlock, i int) bool {
+				ifi, ok := b.Instrs[len(b.Instrs)-1].(*ssa.If)
+				if !ok {
+					return true
+				}
+				v, isNil, isN := eng.CondOf(ifi.Cond, i == 0).NilCheck()
+				if !isN {
+					return true
+				}
+				if fr2, _, isF2 := eng.LoadedField(v); isF2 && fr2.Is(setecPkg, "Store", "cache") {
+					return !isNil
+				}
+				return true
+			}
+			hit, path := eng.Search(f, nil, assumeCache, func(x ssa.Instruction) bool { return x == in }, func(x ssa.Instruction) bool {
+				r, isR := x.(*ssa.Return)
+				if !isR {
+					return false
+				}
+				rv := eng.RetVals(r)
+				return len(rv) == 0 || nonNilAt(rv[len(rv)-1], eng.FactsAt(r)) != eng.Yes
+			})
+			c.Check(hit == nil, rule, f, in.Pos(), "flush routine "+eng.FName(f)+" [always writes]", "with a cache configured, every path that reports success has written the document (no 'nothing changed' short-cut: access stamps and failed earlier writes would be lost)", func() string {
+				if hit == nil {
+					return ""
+				}
+				return "success return at " + p.Pos(hit.Pos()) + " reachable without writing: " + p.PathStr(path)
+			}())
 }
